@@ -104,18 +104,97 @@ def outcome(o: codecrun.Outcome) -> Tuple:
     return ("exc", o.exc_type)
 
 
+def odd_layer() -> Dict[str, Any]:
+    """Descriptions whose problems are only noticed when they are used: illegal encodings for
+    the base type, floats of the wrong width.  Every use goes through the raise-if-strict path."""
+    from ..odxgen import dct_std, dop, p_value, u8const
+    combos = [("A_ASCIISTRING", "BCD-P", 16), ("A_ASCIISTRING", "2C", 16), ("A_UTF8STRING", "SM", 16),
+              ("A_UNICODE2STRING", "NONE", 32), ("A_UINT32", "UTF-8", 8), ("A_UINT32", "2C", 8),
+              ("A_INT32", "BCD-P", 8), ("A_INT32", "UCS-2", 16), ("A_FLOAT32", None, 16),
+              ("A_FLOAT64", None, 32), ("A_BYTEFIELD", "2C", 16)]
+    dobjs, rqs = [], []
+    for i, (base, enc, bits) in enumerate(combos):
+        dobjs.append(dop(f"odd{i}", dct_std(base, bits, enc)))
+        rqs.append({"name": f"oddrq{i}", "params": [u8const("sid", 0x2F), p_value("x", f"odd{i}")],
+                    "feat": {"shape": "odd"}, "odd_base": base})
+    return {"kind": "BASE-VARIANT", "name": "oddities", "dobjs": dobjs, "requests": rqs, "pos": [],
+            "neg": [], "gneg": [],
+            "services": [{"name": "svc_" + r["name"], "request": r["name"], "pos": [], "neg": []}
+                         for r in rqs]}
+
+
+def nrc_layer() -> Dict[str, Any]:
+    """Services with several negative responses that differ only in their NRC-CONST lists,
+    decoded through the layer and the service (the DecodeMismatch control flow)."""
+    from ..odxgen import dct_std, dop, p_value, u8const
+    dobjs = [dop("u8", dct_std("A_UINT32", 8)), dop("u16", dct_std("A_UINT32", 16))]
+
+    def nr(name: str, values: List[int], extra: bool) -> Dict[str, Any]:
+        ps = [u8const("nsid", 0x7F),
+              {"p": "MATCHING-REQUEST-PARAM", "name": "rq_sid", "req_pos": 0, "len": 1},
+              {"p": "NRC-CONST", "name": "nrc", "byte": None, "bit": None,
+               "dct": dct_std("A_UINT32", 8), "values": values}]
+        if extra:
+            ps.append(p_value("detail", "u8"))
+        return {"name": name, "params": ps}
+
+    rqs = [{"name": "rqA", "params": [u8const("sid", 0x22), p_value("did", "u16")]},
+           {"name": "rqB", "params": [u8const("sid", 0x2E), p_value("did", "u16"), p_value("v", "u8")]}]
+    pos = [{"name": "prA", "params": [u8const("rsid", 0x62), p_value("r", "u8")]}]
+    neg = [nr("nr_busy", [0x21, 0x78], False), nr("nr_range", [0x31, 0x33], False),
+           nr("nr_detail", [0x10, 0x11], True)]
+    return {"kind": "BASE-VARIANT", "name": "nrcs", "dobjs": dobjs, "requests": rqs, "pos": pos,
+            "neg": neg, "gneg": [],
+            "services": [{"name": "svcA", "request": "rqA", "pos": ["prA"],
+                          "neg": ["nr_busy", "nr_range", "nr_detail"]},
+                         {"name": "svcB", "request": "rqB", "pos": [],
+                          "neg": ["nr_range", "nr_busy"]}]}
+
+
+def norm_messages(v: Any) -> Any:
+    if isinstance(v, list) and v and hasattr(v[0], "coding_object"):
+        return tuple((m.service.short_name, getattr(m.coding_object, "short_name", None),
+                      norm(m.param_dict)) for m in v)
+    if hasattr(v, "coding_object"):
+        return (v.service.short_name, getattr(v.coding_object, "short_name", None),
+                norm(v.param_dict))
+    return norm(v)
+
+
 def build_ops(tier: str, seed: int) -> Tuple[List[Dict[str, Any]], List[Tuple]]:
     """-> (layer models, ops) ; op = (layer index, message name, kind, payload)"""
     r = random.Random(seed * 31337 + 17)
     grid = codecgen.grid_layers("quick", seed, per_layer=40)
     grid = r.sample(grid, min(len(grid), 10 if tier == "quick" else 40))
     comp = codeccompose.layers("quick", seed)[: (8 if tier == "quick" else 25)]
-    models = grid + comp
+    models = grid + comp + [odd_layer(), nrc_layer()]
     ops: List[Tuple] = []
     from . import c04
     for li, m in enumerate(models):
         dobjs = {o["name"]: o for o in m["dobjs"]}
         is_grid = m["name"].startswith("grid")
+        if m["name"] == "oddities":
+            for rq in m["requests"]:
+                base = rq["odd_base"]
+                vals = ["ab", "a"] if "STRING" in base else ([b"\x01\x02"] if base == "A_BYTEFIELD"
+                                                            else [1, 5, 1.5])
+                for v in vals:
+                    ops.append((li, rq["name"], "enc", {"x": v}))
+                for b in (b"\x2f\x41\x42", b"\x2f\x41\x42\x43\x44", b"\x2f\x01", b"\x2f"):
+                    ops.append((li, rq["name"], "dec", b))
+            continue
+        if m["name"] == "nrcs":
+            msgs = [bytes.fromhex(h) for h in (
+                "7f2221", "7f2278", "7f2231", "7f2233", "7f221000", "7f221105", "7f2299", "7f2e31",
+                "7f2e21", "7f2e10", "6205", "22f190", "2ef19001", "7f22", "7f", "7f2231ff")]
+            for b in msgs:
+                ops.append((li, "", "layerdec", b))
+                ops.append((li, "", "layerresp", (b, bytes.fromhex("22f190"))))
+                ops.append((li, "svcA", "svcdec", b))
+                ops.append((li, "svcB", "svcdec", b))
+                for rn in ("nr_busy", "nr_range", "nr_detail"):
+                    ops.append((li, rn, "respdec", b))
+            continue
         for rq in m["requests"]:
             if is_grid:
                 assigns = codecgen.assignments_for(rq, dobjs, "quick", r, hostile=True)
@@ -186,8 +265,12 @@ def child_main(mode: str, tier: str, seed: int, out_path: str) -> None:
     mid_leaks: List[Any] = []
     flipper_state = {"k": 0, "n": 0, "armed": False}
     if mode == "MID":
-        from odxtools.parameters.parameter import Parameter
-        codes = [Parameter.encode_into_pdu.__code__, Parameter.decode_from_pdu.__code__]
+        codes = []
+        try:
+            from odxtools.parameters.parameter import Parameter
+            codes = [Parameter.encode_into_pdu.__code__, Parameter.decode_from_pdu.__code__]
+        except Exception:
+            info["mid_flip_points"] = "parameter entry points not found (refactored?)"
         TOOL2 = 3
         mon.use_tool_id(TOOL2, "verif-c17-flip")
 
@@ -204,17 +287,31 @@ def child_main(mode: str, tier: str, seed: int, out_path: str) -> None:
     def run_op(idx: int, op: Tuple) -> Any:
         li, mname, kind, payload = op
         ll = layers[li]
-        obj = ll.requests[mname]
         info["current_op"] = idx
-        if kind == "enc":
-            return codecrun.encode(obj, payload)
-        return codecrun.decode(obj, payload)
+        if kind == "layerdec":
+            o = codecrun.call(ll.layer.decode, payload)
+        elif kind == "layerresp":
+            o = codecrun.call(ll.layer.decode_response, payload[0], payload[1])
+        elif kind == "svcdec":
+            svc = next(x for x in ll.layer.services if x.short_name == mname)
+            o = codecrun.call(svc.decode_message, payload)
+        elif kind == "respdec":
+            o = codecrun.decode(ll.neg[mname], payload)
+        elif kind == "enc":
+            return codecrun.encode(ll.requests[mname], payload)
+        else:
+            return codecrun.decode(ll.requests[mname], payload)
+        if o.ok:
+            o.value = norm_messages(o.value)
+        return o
 
     # derive decode ops (same in every child: based on reference PDUs, not on odxtools)
     all_ops = list(ops)
     r2 = random.Random(seed + 99)
     from . import c05
     for li, m in enumerate(models):
+        if m["name"] in ("oddities", "nrcs"):
+            continue
         for rq in m["requests"][:: (2 if tier == "quick" else 1)]:
             vals = next((o[3] for o in ops if o[0] == li and o[1] == rq["name"]), None)
             if vals is None:
@@ -343,7 +440,9 @@ def run(tier: str, col: common.Collector) -> None:
                           dict(desc(opi) if isinstance(opi, int) else {}, mode=m))
     col.notes["raise_if_strict_entries_observed"] = total_entries
     if not total_entries:
-        col.fail_inconclusive("the hook on the raise-if-strict function never fired")
+        # the hook is an auxiliary monitor attached by name; if the function was renamed the
+        # cross-process comparisons above still decide the property
+        col.notes["raise_if_strict_hook"] = "not attached (function not found under its usual name)"
     if differ < 50:
         col.fail_inconclusive(f"only {differ} operations behave differently in the two modes")
     for i in (0, len(opmeta) // 2):
